@@ -16,7 +16,8 @@ and classifies EVERY store into memory inside every `for v in _numba.prange(n)` 
 
 Stores reached through a call of a function-valued parameter (default_sparse_kernel -> kernel_evaluator(..., result))
 are followed into every non-parallel module function with the same number of parameters as the call has arguments.
-Any other store pattern, a reduction into a scalar, a nested prange, or a function that stores into one of its
+A scratch array selected by `get_thread_id()` out of a buffer sized outside the launch is reported as its own, UNSOUND
+class (scratch-by-thread-id).  Any other store pattern, a reduction into a scalar, a nested prange, or a function that stores into one of its
 parameters without being one of the analysed kernels raises TieBroken.  Python stdlib only."""
 import ast
 import itertools
@@ -279,6 +280,18 @@ class Analysis:
             self.writes.append(rec)
             return
         if arr in inbody:
+            for rhs in inbody[arr]:
+                if isinstance(rhs, ast.Subscript) and any(
+                        isinstance(c, ast.Call) and ast.unparse(c.func).endswith("get_thread_id") for c in ast.walk(rhs.slice)):
+                    buf = ast.unparse(rhs.value)
+                    outside = isinstance(rhs.value, ast.Name) and (rhs.value.id in sc.params or rhs.value.id not in inbody)
+                    _fail(self.rel, st,
+                          "UNSOUND class scratch-by-thread-id: '%s' is a slice of the shared buffer '%s' selected by "
+                          "get_thread_id() (%s); two iterations share it whenever the launch runs more threads than the "
+                          "buffer has slots, and the buffer is %s -- not private, not own-slot"
+                          % (arr, buf, ast.unparse(rhs.slice).split(",")[0],
+                             "sized outside the launch (a parameter / allocated before the loop), i.e. for the thread "
+                             "count at build time" if outside else "not allocated per iteration"))
             _fail(self.rel, st, "store into '%s', which is bound inside the loop body but not to a fresh allocation "
                   "(could be a view of shared memory)" % arr)
         idx = target.slice
